@@ -229,8 +229,13 @@ fn simple_tagged_enum_name(raw_tag: &Option<Cow<'_, str>>, tag: &SfTag) -> Optio
 /// Canonical fingerprint of a YAML node for duplicate-key detection.
 #[derive(Clone, Debug, PartialEq, Eq, Hash, Default)]
 enum KeyFingerprint {
-    /// Scalar fingerprint (value plus optional tag).
-    Scalar { value: String, tag: SfTag },
+    /// Scalar fingerprint (value plus optional tag; for an application tag also its text,
+    /// so that `!a x` and `!b x` are different keys).
+    Scalar {
+        value: String,
+        tag: SfTag,
+        custom_tag: Option<String>,
+    },
     /// Sequence fingerprint (ordered fingerprints of children).
     Sequence(Vec<KeyFingerprint>),
     /// Mapping fingerprint (ordered list of `(key, value)` fingerprints).
@@ -251,7 +256,7 @@ impl KeyFingerprint {
     /// - Error messages to print a friendly duplicate key like `duplicate mapping key: foo`.
     fn stringy_scalar_value(&self) -> Option<&str> {
         match self {
-            KeyFingerprint::Scalar { value, tag } => {
+            KeyFingerprint::Scalar { value, tag, .. } => {
                 if tag.can_parse_into_string() && tag != &SfTag::Binary {
                     Some(value.as_str())
                 } else {
@@ -286,10 +291,21 @@ impl<'a> KeyNode<'a> {
         match self {
             KeyNode::Fingerprinted { fingerprint, .. } => Cow::Borrowed(fingerprint),
             KeyNode::Scalar { events, .. } => {
-                if let Some(Ev::Scalar { tag, value, .. }) = events.first() {
+                if let Some(Ev::Scalar {
+                    tag,
+                    value,
+                    raw_tag,
+                    ..
+                }) = events.first()
+                {
                     Cow::Owned(KeyFingerprint::Scalar {
                         tag: *tag,
                         value: value.to_string(),
+                        custom_tag: if *tag == SfTag::Other {
+                            raw_tag.as_ref().map(|t| t.to_string())
+                        } else {
+                            None
+                        },
                     })
                 } else {
                     unreachable!()
@@ -2221,6 +2237,7 @@ impl<'de, 'e> de::Deserializer<'de> for YamlDeserializer<'de, 'e> {
                                 KeyFingerprint::Scalar {
                                     value: sv,
                                     tag: stag,
+                                    ..
                                 },
                                 _,
                             ) = &pairs[0]
@@ -2366,6 +2383,7 @@ impl<'de, 'e> de::Deserializer<'de> for YamlDeserializer<'de, 'e> {
                                         KeyFingerprint::Scalar {
                                             value: sv,
                                             tag: stag,
+                                            ..
                                         },
                                         _,
                                     ) = &pairs[0]
